@@ -235,6 +235,50 @@ def outlier_contract(n, n_out, max_iterations, min_anchors):
     return None
 
 
+def outlier_stack_contract(combo, n, n_out):
+    """superimpose_without_outliers on the stack / array combinations: one proper rotation per model, fitted on the
+    common anchors, reproduced by apply(); the outliers (moved in every model) are not among the anchors"""
+    fixed = points("generic", n)
+    m = 3
+    mob = np.stack([(fixed - fixed.mean(0)) @ rot(rng).T + rng.uniform(-20, 20, size=3) + rng.normal(size=fixed.shape) * 0.1 for _ in range(m)])
+    out_idx = rng.choice(n, size=n_out, replace=False)
+    mob[:, out_idx] += rng.normal(size=(m, n_out, 3)) * 25.0
+    fix_in = fixed if combo == "array / stack" else np.stack([fixed + k * 0.0 for k in range(m)])
+    mob_in = mob if combo != "stack / array" else mob[0]
+    fitted, tr, anchors = struc.superimpose_without_outliers(fix_in.astype(np.float32), mob_in.astype(np.float32), min_anchors=3, max_iterations=10)
+    anchors = np.asarray(anchors)
+    fitted = np.asarray(fitted, dtype=float)
+    if set(out_idx.tolist()) & set(anchors.tolist()) and n_out:
+        return f"gross outliers {sorted(set(out_idx.tolist()) & set(anchors.tolist()))} are among the anchors"
+    given = mob_in if combo != "stack / array" else np.stack([mob_in] * m)       # (one transformation per fixed model)
+    if not np.allclose(np.asarray(tr.apply(given.astype(np.float32)), dtype=float), fitted, atol=1e-3):
+        return "transformation.apply(mobile) != fitted coordinates"
+    rots = np.asarray(tr.rotation, dtype=float).reshape(-1, 3, 3)
+    for k, rm in enumerate(rots):
+        if not np.allclose(rm @ rm.T, np.eye(3), atol=1e-4) or abs(np.linalg.det(rm) - 1) > 1e-4:
+            return f"rotation of model {k} is not proper (determinant {np.linalg.det(rm):.4f})"
+    models = fitted if fitted.ndim == 3 else fitted[None]
+    if combo != "stack / array" and len(models) != m:
+        return f"{len(models)} fitted models for {m} mobile models"
+    for k, fm in enumerate(models):
+        src = mob[k] if combo != "stack / array" else mob[0]
+        best, _ = struc.superimpose(fixed[anchors].astype(np.float32), src[anchors].astype(np.float32))
+        r_rep, r_best = rmsd(fixed[anchors], fm[anchors]), rmsd(fixed[anchors], np.asarray(best, dtype=float))
+        if r_rep > r_best + 2e-2:
+            return f"model {k}: RMSD over the anchors {r_rep:.4f}, a plain superimposition of these anchors reaches {r_best:.4f}"
+    return None
+
+
+for it in range(max(2, N // 25)):
+    # (a stack as fixed with a single model as mobile is refused by the library with an IndexError - several
+    #  transformations for one model -: not part of the contract)
+    for combo in ("array / stack", "stack / stack"):
+        for n_out in (0, 2):
+            R.check("outlier-tolerant superimposition never reports a fit worse than its own anchors imply", f"without_outliers {combo}",
+                    {"combination (fixed / mobile)": combo, "outliers": n_out, "draw": it},
+                    lambda combo=combo, n_out=n_out: outlier_stack_contract(combo, 14, n_out))
+
+
 for it in range(N // 3):
     n = int(rng.choice([12, 20, 40]))
     cfg = (n, int(rng.choice([0, 1, 3, n // 4])), int(rng.choice([1, 2, 3, 10])), int(rng.choice([3, n // 2, n - 2])))
